@@ -35,6 +35,9 @@ pub enum Mutn {
     AuthTrim(usize),
     /// unmasked domain: move `n` bytes from the start of the body into the auth-data (size + n)
     AuthGrow(usize),
+    /// replace the datagram by a message packet claiming the genuine sender, carrying a request
+    /// the sender never made, encrypted under a degenerate key (0: all zero, 1: all 0xff)
+    DegenerateKey(u8),
 }
 
 pub struct Tamper {
@@ -130,6 +133,17 @@ impl Driver for Tamper {
                     target = Some(*n);
                 }
                 Mutn::Redirect(n) => target = Some(*n),
+                Mutn::DegenerateKey(k) => {
+                    // who really sent the genuine datagram
+                    if let Some(sender) = w.node_by_addr(&d.src) {
+                        let key = if *k == 0 { [0u8; 16] } else { [0xffu8; 16] };
+                        let msg = v::Request { id: v::RequestId(vec![0xDE, 0xAD]), body: v::RequestBody::Talk { protocol: b"forged".to_vec(), request: vec![7] } }.encode();
+                        let mut s = v::VSession::from_keys(key, key);
+                        if let Ok(p) = s.encrypt_message(w.nodes[sender].id, &msg) {
+                            bytes = p.encode(&d.dst_id);
+                        }
+                    }
+                }
                 Mutn::ForeignSrc(k) => {
                     src = match *k {
                         0 => w.nodes[w.nodes.len() - 1].addr,
@@ -290,19 +304,24 @@ fn bases() -> Vec<(String, HCfg, Vec<Ev>)> {
         // the same over IPv6 (addresses take other code paths in address comparison and hashing)
         ("fresh-ipv6".into(), HCfg { ipv6: true, ..quiet(vec![req(1, 0, Body::Ping, true), req(0, 1, Body::Talk, true)], vec![]) }, vec![]),
         ("awaiting-record".into(), quiet(vec![req(0, 1, Body::Ping, false), req(1, 0, Body::Talk, true), req(0, 1, Body::Find(2), false)], vec![]), vec![]),
+        // the dialled peer (no record known) sends a request of its own while the dialler still waits
+        // for its record: the peer's FINDNODE[0] is delivered but not answered before the TALK
+        ("awaiting-record-peer-request".into(), quiet(vec![req(0, 1, Body::Ping, false), req(1, 0, Body::Talk, true)], vec![]), vec![Ev::Submit(0), Ev::Deliver(0), Ev::AnsWay(1, true), Ev::Deliver(0), Ev::Deliver(0), Ev::Deliver(0), Ev::Submit(1)]),
         // node 1 loses its sessions after the first exchange; node 0 then re-keys in place (old keys retained)
         ("re-keyed".into(), quiet(vec![req(0, 1, Body::Ping, true), req(0, 1, Body::Talk, true), req(1, 0, Body::Ping, true)], vec![1]), vec![Ev::Submit(0), Ev::Deliver(0), Ev::AnsWay(1, true), Ev::Deliver(0), Ev::Deliver(0), Ev::Respond(1), Ev::Deliver(0), Ev::Restart(1)]),
     ]
 }
 
 /// The unmutated run: the full default history and, per delivery step, (length, header length).
-async fn base_history(cfg: &HCfg, prefix: &[Ev]) -> (Vec<Ev>, Vec<(usize, usize, usize, usize)>, bool) {
+async fn base_history(cfg: &HCfg, prefix: &[Ev]) -> (Vec<Ev>, Vec<(usize, usize, usize, usize)>, bool, bool) {
     let monitors = Monitors { c03: false, c04: false, c13: false, c15: false, c19: false, c20: false };
     let mut w = World::build(cfg, monitors).await;
     let d = Tamper { m: Mutn::None };
     let mut hist = vec![];
     let mut sites = vec![];
     let mut rekeyed = false;
+    // a request datagram is delivered to a node whose session with the sender still awaits the record
+    let mut request_while_awaiting = false;
     let mut i = 0;
     loop {
         let ev = if i < prefix.len() { Some(prefix[i].clone()) } else { w.default_event() };
@@ -314,6 +333,12 @@ async fn base_history(cfg: &HCfg, prefix: &[Ev]) -> (Vec<Ev>, Vec<(usize, usize,
             let dg = &w.inflight[0];
             let hl = header_len(&dg.dst_id, &dg.bytes).unwrap_or(dg.bytes.len());
             sites.push((hist.len(), dg.bytes.len(), hl, w.log.len()));
+            if let Some(to) = w.node_by_addr(&dg.dst) {
+                let awaiting = w.snap(to).map(|s| s.sessions.iter().any(|x| x.addr.socket_addr == dg.src && x.awaiting_enr.is_some())).unwrap_or(false);
+                if awaiting && matches!(w.read(dg).0, crate::hsim::Plain::Request(..)) {
+                    request_while_awaiting = true;
+                }
+            }
         }
         w.step(&ev, &d).await;
         if w.snap(0).map(|s| s.sessions.iter().any(|x| x.old_keys.is_some())).unwrap_or(false) {
@@ -325,7 +350,7 @@ async fn base_history(cfg: &HCfg, prefix: &[Ev]) -> (Vec<Ev>, Vec<(usize, usize,
             mc::machinery("base history does not end");
         }
     }
-    (hist, sites, rekeyed)
+    (hist, sites, rekeyed, request_while_awaiting)
 }
 
 fn mutations(len: usize, hl: usize, log_len: usize, thorough: bool) -> Vec<Mutn> {
@@ -365,6 +390,8 @@ fn mutations(len: usize, hl: usize, log_len: usize, thorough: bool) -> Vec<Mutn>
     m.push(Mutn::ForeignSrc(1));
     m.push(Mutn::ForeignSrc(2));
     m.push(Mutn::ForeignSrc(3));
+    m.push(Mutn::DegenerateKey(0));
+    m.push(Mutn::DegenerateKey(1));
     m
 }
 
@@ -381,14 +408,20 @@ pub fn run() {
     let bases = bases();
     let mut base_runs = vec![];
     for (bi, (name, cfg, prefix)) in bases.iter().enumerate() {
-        let (hist, sites, rekeyed) = rt::run(base_history(cfg, prefix));
+        let (hist, sites, rekeyed, request_while_awaiting) = rt::run(base_history(cfg, prefix));
         if name == "re-keyed" && !rekeyed {
             mc::machinery("re-keyed base exchange never retained old keys");
+        }
+        if name == "awaiting-record-peer-request" && !request_while_awaiting {
+            mc::machinery("base exchange never delivered a request to a node still awaiting the sender's record");
         }
         for (si, (_step, len, hl, log_len)) in sites.iter().enumerate() {
             for m in mutations(*len, *hl, *log_len, thorough) {
                 // the IPv6 base differs from "fresh" only in how addresses are handled: quick tier
                 // applies the address / routing mutations and a thinned set of the byte mutations
+                if name == "awaiting-record-peer-request" && !thorough && !matches!(m, Mutn::ForeignSrc(_) | Mutn::Redirect(_) | Mutn::RemaskFor(_) | Mutn::HeaderWithBodyOf(_) | Mutn::BodyWithHeaderOf(_) | Mutn::DegenerateKey(_) | Mutn::AuthTail(_)) {
+                    continue;
+                }
                 if name == "fresh-ipv6" && !thorough && !matches!(m, Mutn::ForeignSrc(_) | Mutn::Redirect(_) | Mutn::RemaskFor(_) | Mutn::HeaderWithBodyOf(_) | Mutn::BodyWithHeaderOf(_) | Mutn::Append(_) | Mutn::AuthTail(_)) {
                     continue;
                 }
